@@ -35,22 +35,25 @@ MInit == /\ \E c0 \in Configs : Init(c0)
 Allowed(t) == /\ (~Fanout(t) => t.sh \in Shards)
               /\ (KindOf(t) # "s" => Targets(t) \cap cfg.dead = {})
 
-Obs == [fly |-> fly', done |-> done', res |-> res', out |-> out']
+\* observable state: requests the servers hold unanswered, completions, delivered items
+ObsNow  == [fly |-> fly, done |-> done, res |-> res, out |-> out]
+ObsNext == [fly |-> fly', done |-> done', res |-> res', out |-> out']
 NoT == [op |-> "", cmp |-> "", pk |-> FALSE, sh |-> 0, size |-> 0, tbl |-> 0]
+\* environment steps carry the observable state *before* the step (in Eager mode a quiescent state the
+\* replayer can wait for); client-internal steps are recorded by name only
 Log(a, c, s, k, t, key, how) ==
-    hist' = Append(hist, [a |-> a, c |-> c, s |-> s, k |-> k, t |-> t, key |-> key, how |-> how,
-                          cfg |-> [n |-> cfg.n, maxReq |-> cfg.maxReq, maxBytes |-> cfg.maxBytes,
-                                   linger |-> cfg.linger, dead |-> cfg.dead],
-                          obs |-> Obs])
+    hist' = Append(hist, [a |-> a, c |-> c, s |-> s, k |-> k, t |-> t, key |-> key, how |-> how, pre |-> ObsNow])
+LogI(a, c, s, k) == hist' = Append(hist, [a |-> a, c |-> c, s |-> s, k |-> k])
+CfgRec == [n |-> cfg.n, maxReq |-> cfg.maxReq, maxBytes |-> cfg.maxBytes, linger |-> cfg.linger, dead |-> cfg.dead]
 
 MInternal ==
     /\ UNCHANGED nfail
-    /\ \/ \E s \in Shards, k \in Kinds : Take(s, k) /\ Log("Take", 0, s, k, NoT, <<>>, "")
+    /\ \/ \E s \in Shards, k \in Kinds : Take(s, k) /\ LogI("Take", 0, s, k)
        \/ \E c \in CallIds :
-            \/ \E s \in Shards : Fwd(c, s) /\ Log("Fwd", c, s, "", NoT, <<>>, "")
-            \/ ListClose(c) /\ Log("ListClose", c, 0, "", NoT, <<>>, "")
-            \/ MTake(c) /\ Log("MTake", c, 0, "", NoT, <<>>, "")
-            \/ MPop(c) /\ Log("MPop", c, 0, "", NoT, <<>>, "")
+            \/ \E s \in Shards : Fwd(c, s) /\ LogI("Fwd", c, s, "")
+            \/ ListClose(c) /\ LogI("ListClose", c, 0, "")
+            \/ MTake(c) /\ LogI("MTake", c, 0, "")
+            \/ MPop(c) /\ LogI("MPop", c, 0, "")
 
 MEnv ==
     \/ /\ Len(calls) < MaxCalls
@@ -92,8 +95,10 @@ TMixed == { T("put", "EQ", FALSE, 1, 10, 0), T("del", "EQ", TRUE, 2, 8, 0), T("d
             T("get", "EQ", FALSE, 1, 0, 0), T("get", "FLOOR", FALSE, 0, 0, 1), T("get", "CEILING", FALSE, 0, 0, 2),
             T("list", "EQ", FALSE, 0, 0, 0), T("scan", "EQ", FALSE, 0, 0, 0), T("scan", "EQ", TRUE, 1, 0, 0) }
 
-ExportSteps == (Export = "steps") => PrintT(<<"STEP", ToJson(hist')>>)
+\* one behaviour per transition of the bounded graph that ends in a state where the client is quiescent
+\* (the transitions in between are its inner steps)
+ExportSteps == (Export = "steps" /\ ~InternalEn') => PrintT(<<"STEP", ToJson([cfg |-> CfgRec, steps |-> hist', post |-> ObsNext])>>)
 \* a finished run: nothing enabled but (maybe) Issue, which is exhausted
 RunOver == Len(calls) = MaxCalls /\ Stable
-ExportRuns  == (Export = "runs" /\ RunOver) => PrintT(<<"RUN", ToJson(hist)>>)
+ExportRuns  == (Export = "runs" /\ RunOver) => PrintT(<<"RUN", ToJson([cfg |-> CfgRec, steps |-> hist, post |-> ObsNow])>>)
 =============================================================================
